@@ -47,16 +47,22 @@ func NewTCPGroupCtl(portManager *ports.Manager) *TCPGroupCtl {
 func (tgc *TCPGroupCtl) Listen(proxyName string, group string, groupKey string,
 	addr string, port int,
 ) (l net.Listener, realPort int, err error) {
-	tgc.mu.Lock()
-	tcpGroup, ok := tgc.groups[group]
-	if !ok {
-		tcpGroup = NewTCPGroup(tgc)
-		tgc.groups[group] = tcpGroup
-	}
-	tgc.mu.Unlock()
-	verifhook.At("group.lookedup", "kind", "tcp", "group", group, "obj", verifhook.ID(tcpGroup), "created", !ok, "member", proxyName, "key", groupKey, "param", port)
+	for {
+		tgc.mu.Lock()
+		tcpGroup, ok := tgc.groups[group]
+		if !ok {
+			tcpGroup = NewTCPGroup(tgc)
+			tgc.groups[group] = tcpGroup
+		}
+		tgc.mu.Unlock()
+		verifhook.At("group.lookedup", "kind", "tcp", "group", group, "obj", verifhook.ID(tcpGroup), "created", !ok, "member", proxyName, "key", groupKey, "param", port)
 
-	return tcpGroup.Listen(proxyName, group, groupKey, addr, port)
+		l, realPort, err = tcpGroup.Listen(proxyName, group, groupKey, addr, port)
+		if err != ErrGroupClosed {
+			return
+		}
+		// the last member left this group after we looked it up: it has been removed, retry with a new one
+	}
 }
 
 // RemoveGroup remove TCPGroup from controller
@@ -75,6 +81,7 @@ type TCPGroup struct {
 	realPort int
 
 	acceptCh chan net.Conn
+	closed   bool
 	tcpLn    net.Listener
 	lns      []*TCPGroupListener
 	ctl      *TCPGroupCtl
@@ -99,6 +106,10 @@ func (tg *TCPGroup) Listen(proxyName string, group string, groupKey string, addr
 	defer func() {
 		verifhook.At("group.join", "kind", "tcp", "group", group, "obj", verifhook.ID(tg), "member", proxyName, "ln", verifhook.ID(ln), "n", len(tg.lns), "err", err, "key", groupKey, "param", port, "port", realPort)
 	}()
+	if tg.closed {
+		err = ErrGroupClosed
+		return
+	}
 	if len(tg.lns) == 0 {
 		// the first listener, listen on the real address
 		realPort, err = tg.ctl.portManager.Acquire(proxyName, port)
@@ -179,6 +190,7 @@ func (tg *TCPGroup) CloseListener(ln *TCPGroupListener) {
 		}
 	}
 	if len(tg.lns) == 0 {
+		tg.closed = true
 		close(tg.acceptCh)
 		tg.tcpLn.Close()
 		tg.ctl.portManager.Release(tg.realPort)
